@@ -84,6 +84,23 @@ def shared_templates(pid, repo, ctx):
         ctx.ok(rule, '', '', 0, f'T-ARGROLE: {n} resolved call sites in the anchored files pass every named argument in the position of the parameter it is named after',
                construct=f'{n} call sites')
     ctx.analysed['call_sites'] = ctx.analysed.get('call_sites', 0) + n
+    # T-NAMEINDEX: positions looked up by equality are guarded by a membership test
+    from . import nameindex
+    rule_n = f'R{int(pid[1:])}.N'
+    n_look, n_fun = 0, 0
+    for path in anchor_files(pid):
+        if not repo.has_module(path) or '/tests/' in path:
+            continue
+        for q, f, cls in func_quals(repo.module(path).tree):
+            n_fun += 1
+            out, k = nameindex.check_function(f)
+            n_look += k
+            for c, msg in out:
+                n_bad_lookup = True
+                ctx.violation(rule_n, path, q, c, msg, construct=ast_src(c))
+    if not any(f_.rule == rule_n for f_ in ctx.findings):
+        ctx.ok(rule_n, '', '', 0, f'T-NAMEINDEX: {n_fun} functions of the anchored files scanned; {n_look} equality position lookups (np.argmax(A == key) and the like), each guarded by a membership test',
+               construct=f'{n_look} lookups')
     # T-SHARED for default arguments: one mutable object per definition, shared by all calls
     from . import sharedstate
     files = {p_ for p_ in anchor_files(pid) if repo.has_module(p_) and '/tests/' not in p_}
